@@ -600,6 +600,52 @@ func (c *Ctx) checkNewCall(rule string) {
 			got[f.Name()] = true
 		}
 	})
+	// timing = scope.SubScope(name).Timer(<constant>): the latency's name is joined by the scope (with the
+	// separator that scope was configured with), not assembled here with a separator of NewCall's choosing
+	mSub, mTimer := c.ifaceMethod("", "Scope", "SubScope"), c.ifaceMethod("", "Scope", "Timer")
+	timingOK, timingSeen := false, false
+	var timingAt ssa.Instruction
+	instrsOf(fn, func(in ssa.Instruction) {
+		st, ok := in.(*ssa.Store)
+		if !ok {
+			return
+		}
+		f, _ := addrField(st.Addr)
+		if f == nil || f.Name() != "timing" {
+			return
+		}
+		timingSeen = true
+		timingAt = st
+		tc, isCall := stripConv(st.Val).(*ssa.Call)
+		if !isCall {
+			return
+		}
+		r, m := ifaceCall(tc)
+		if m != mTimer {
+			return
+		}
+		if k, isK := constString(tc.Call.Args[0]); !isK || k != konst("timingSuffix") {
+			return
+		}
+		sc, isSub := stripConv(r).(*ssa.Call)
+		if !isSub {
+			return
+		}
+		r2, m2 := ifaceCall(sc)
+		if m2 != mSub || canon(sc.Call.Args[0]) != ssa.Value(fn.Params[1]) || canon(r2) != ssa.Value(fn.Params[0]) {
+			return
+		}
+		timingOK = true
+	})
+	if mSub != nil && mTimer != nil {
+		pos := fn.Pos()
+		if timingAt != nil {
+			pos = timingAt.Pos()
+		}
+		_ = timingSeen
+		c.check(timingOK, rule, key+":timing", pos, "timing <- scope.SubScope(name).Timer(latency): the latency is recorded under the given scope's own naming",
+			"the latency timer is not scope.SubScope(name).Timer(<latency constant>): its name is assembled outside the scope (a fixed separator, another scope), so on a scope with another separator or prefix the one latency per call is recorded under a name that is not the scope's")
+	}
 	c.check(got["err"] && got["success"], rule, key, fn.Pos(), "err <- Tagged{result_type:error}.Counter(name), success <- Tagged{result_type:success}.Counter(name)",
 		"NewCall does not wire the error/success counters to the result_type=error / result_type=success tags (swapped or mistagged counters)")
 }
